@@ -81,6 +81,12 @@ impl G<'_> {
                 "package GPkg{t}{n}::<T: u32> {{\n    const V: u32 = T;\n    struct GS {{\n        g: logic<T>,\n    }}\n}}\n"
             ));
         }
+        if self.rng.chance(1, 5) {
+            // a top-level symbol that has the name of a clock domain used elsewhere (`'a`):
+            // pass1 resolves `'a` through the symbol table before creating a ClockDomain symbol
+            self.feat("symbol_named_like_clock_domain");
+            s.push_str("package a {\n    const Q: u32 = 1;\n}\n");
+        }
         if self.rng.chance(1, 4) {
             self.feat("proto");
             s.push_str(&format!(
@@ -209,7 +215,7 @@ impl G<'_> {
         }
         if self.rng.chance(1, 2) {
             self.feat("sv_reference");
-            let shared = if self.rng.bool() { "shared".to_string() } else { format!("m{t}{n}") };
+            let shared = if self.rng.chance(3, 4) { "shared".to_string() } else { format!("m{t}{n}") };
             s.push_str(&format!(
                 "module Sv{t}{n} (\n    i_clk: input  clock,\n    i_d  : input  logic,\n    o_d  : output logic,\n) {{\n    const K: u32 = $sv::ext_pkg_{shared}::K;\n    inst u_if: $sv::ext_if_{shared};\n    inst u_sv: $sv::ext_delay_{shared} (\n        clk: i_clk,\n        d  : i_d  ,\n        q  : o_d  ,\n    );\n    let _k: u32 = K;\n    let _m: logic = u_if.member_{shared};\n}}\n"
             ));
